@@ -23,6 +23,7 @@ func main() {
 		vlib.Group{Name: "dgehrd", Gen: genDgehrd},
 		vlib.Group{Name: "dhseqr", Gen: genDhseqr},
 		vlib.Group{Name: "dhseqr-noconv", Gen: genDhseqrNoConv},
+		vlib.Group{Name: "hess-mixed", Gen: genHessMixed},
 		vlib.Group{Name: "dgeev", Gen: genDgeev},
 		vlib.Group{Name: "dtrexc", Gen: genDtrexc},
 		vlib.Group{Name: "dlaexc", Gen: genDlaexc},
